@@ -41,10 +41,12 @@ META = dict(
         "brushes are point-symmetric (plus, circular_brush) so that 'footprint of a touch' has one orientation",
         "footprint centres are design pixels (stronger than admitting centres outside the design; implies that reading)",
     ],
-    outside="designs larger than the listed ones; brushes other than the listed ones; float ties broken by rounding; gradient (straight-through) path; "
+    outside="designs larger than the listed ones (4x4 was tried: unwinding bound 11 'unknown' after 600 s); designs with a side shorter than the brush "
+            "(2x4 / 2x5 with a 3x3 brush make jax.scipy.signal.convolve2d raise 'One input must be smaller than the other in every dimension' -- "
+            "treated as outside the documented domain, not as a violation); brushes other than the listed ones; float ties broken by rounding; gradient (straight-through) path; "
             "termination is only shown as 'within K = #pixels iterations' at the listed sizes",
-    bounds=dict(quick=dict(designs="3x3 (plus, circular 3), 3x4 plus", K="#pixels"),
-                thorough=dict(designs="quick + 4x4 (plus, circular 3), 5x5 circular 5 ... as far as the solver budget allows", K="#pixels")),
+    bounds=dict(quick=dict(designs="3x3 (plus, circular_brush(3) = full 3x3), module 3x3 plus", K="searched upwards from #pixels/2, at most #pixels"),
+                thorough=dict(designs="quick + 3x4 and 4x3 plus, 3x4 circular_brush(3), 3x4 circular_brush(2), module 3x3 both background orders", K="as quick")),
     timeout_ms=dict(quick=120000, thorough=600000),
 )
 
@@ -65,15 +67,17 @@ def cases(tier, seed):
     q = [
         dict(name="gen-3x3-plus", kind="gen", shape=(3, 3), brush="plus"),
         dict(name="gen-3x3-circ3", kind="gen", shape=(3, 3), brush="circ3"),
-        dict(name="gen-3x4-plus", kind="gen", shape=(3, 4), brush="plus"),
         dict(name="module-3x3-plus-bg1", kind="module", shape=(3, 3), brush="plus", bg=1),
     ]
     if tier == "quick":
         return q
+    # 4x4 designs were tried (plus brush): unwinding bounds 9 and 10 are refuted in seconds, bound 11 is 'unknown' after
+    # 600 s -- not decidable within the budget, hence not listed (see META["outside"])
     return q + [
-        dict(name="gen-4x4-plus", kind="gen", shape=(4, 4), brush="plus"),
-        dict(name="gen-4x4-circ3", kind="gen", shape=(4, 4), brush="circ3"),
-        dict(name="gen-4x4-circ2", kind="gen", shape=(4, 4), brush="circ2"),
+        dict(name="gen-3x4-plus", kind="gen", shape=(3, 4), brush="plus"),
+        dict(name="gen-4x3-plus", kind="gen", shape=(4, 3), brush="plus"),
+        dict(name="gen-3x4-circ3", kind="gen", shape=(3, 4), brush="circ3"),
+        dict(name="gen-3x4-circ2", kind="gen", shape=(3, 4), brush="circ2"),
         dict(name="module-3x3-plus-bg0", kind="module", shape=(3, 3), brush="plus", bg=0),
     ]
 
